@@ -408,11 +408,15 @@ def rw_panics(s, stats):
 
 
 def rw_range_contains(s, stats):
-    """R7: `(a..=b).contains(&x)` -> `(a <= x && x <= b)`."""
+    """R7: `(a..=b).contains(&x)` -> `(a <= x && x <= b)`;  `(a..b).contains(&x)` -> `(a <= x && x < b)`."""
     def f(m):
         stats['R7'] = stats.get('R7', 0) + 1
         return '(%s <= %s && %s <= %s)' % (m.group(1), m.group(3), m.group(3), m.group(2))
-    return re.sub(r'\((\w+)\s*\.\.=\s*(\w+)\)\s*\.contains\(&(\w+)\)', f, s)
+    s = re.sub(r'\((\w+)\s*\.\.=\s*(\w+)\)\s*\.contains\(&(\w+)\)', f, s)
+    def g(m):
+        stats['R7'] = stats.get('R7', 0) + 1
+        return '(%s <= %s && %s < %s)' % (m.group(1), m.group(3), m.group(3), m.group(2))
+    return re.sub(r'\((\w+)\s*\.\.\s*(\w+)\)\s*\.contains\(&(\w+)\)', g, s)
 
 
 def rw_unsafe(s, stats):
